@@ -29,12 +29,6 @@ theorem foldl_congr_mem {α β : Type} {f g : β → α → β} : ∀ (l : List 
     rw [h x (List.mem_cons_self ..) b]
     exact foldl_congr_mem r _ (fun y hy a => h y (List.mem_cons_of_mem _ hy) a)
 
-theorem flatMap_congr_mem {α β : Type} {f g : α → List β} : ∀ (l : List α), (∀ x ∈ l, f x = g x) → l.flatMap f = l.flatMap g
-  | [], _ => rfl
-  | x :: r, h => by
-    simp only [List.flatMap_cons]
-    rw [h x (List.mem_cons_self ..), flatMap_congr_mem r (fun y hy => h y (List.mem_cons_of_mem _ hy))]
-
 theorem addEnv_agree (cfg : Cfg) {c c' : Caller} (vars : List Bytes) (h : Agree vars c c') (st : Env × Bool) :
     addEnv cfg c vars st = addEnv cfg c' vars st := by
   unfold addEnv
@@ -97,16 +91,28 @@ theorem expandHome_agree {c c' : Caller} (hh : getenv c [72, 79, 77, 69] = geten
   rw [hh]
 
 /-- Everything the action's environment takes from the caller: the visible names, and `HOME` if there are secrets. -/
-theorem buildEnvironment_agree (cfg : Cfg) (t : Target) (d : Derived) {c c' : Caller} (h : Agree (visible cfg t) c c')
+theorem preUserEnv_agree (cfg : Cfg) (t : Target) (d : Derived) {c c' : Caller} (h : Agree (visible cfg t) c c')
     (hh : (t.secrets = [] ∧ t.namedSecrets = [] ∧ t.tools = [] ∧ t.namedTools = []) ∨
           getenv c [72, 79, 77, 69] = getenv c' [72, 79, 77, 69]) :
-    buildEnvironment cfg t d c = buildEnvironment cfg t d c' := by
-  unfold buildEnvironment
+    preUserEnv cfg t d c = preUserEnv cfg t d c' := by
+  unfold preUserEnv
   rw [targetEnv_agree cfg t d h]
   rcases hh with ⟨h1, h2, h3, h4⟩ | hh
   · simp [h1, h2, h3, h4, keysOrder, isort]
   · have e : expandHome c = expandHome c' := funext (expandHome_agree hh)
     simp only [e]
+
+/-- Everything the action's environment takes from the caller: the visible names, and `HOME` if there are secrets / tools. -/
+theorem buildEnvironment_agree (S : Bool) (cfg : Cfg) (t : Target) (d : Derived) {c c' : Caller} (h : Agree (visible cfg t) c c')
+    (hh : (t.secrets = [] ∧ t.namedSecrets = [] ∧ t.tools = [] ∧ t.namedTools = []) ∨
+          getenv c [72, 79, 77, 69] = getenv c' [72, 79, 77, 69]) :
+    buildEnvironment S cfg t d c = buildEnvironment S cfg t d c' := by
+  unfold buildEnvironment
+  rw [preUserEnv_agree cfg t d h hh]
+
+/-- The part before `withUserProvidedEnv` does not look at `target.Env`. -/
+theorem preUserEnv_env (cfg : Cfg) (t : Target) (d : Derived) (c : Caller) (e' : List (Bytes × Bytes)) :
+    preUserEnv cfg { t with env := e' } d c = preUserEnv cfg t d c := rfl
 
 /-! ### the rule hash only reads the caller through `pass_env` -/
 
@@ -173,9 +179,9 @@ theorem lookup_set (e : Env) (k k' v : Bytes) : lookup k (Env.set e k' v) = if k
 
 /-- Plain (no `$`) user entries: `withUserEnv` is a sequence of `set`s. -/
 theorem withUserEnv_plain : ∀ (l : List (Bytes × Bytes)) (env : Env), (∀ kv ∈ l, kv.2.contains 36 = false) →
-    withUserEnv l env = l.foldl (fun acc kv => Env.set acc kv.1 kv.2) env := by
+    withUserEnv false l env = l.foldl (fun acc kv => Env.set acc kv.1 kv.2) env := by
   intro l env h
-  unfold withUserEnv
+  simp only [withUserEnv, keysOrder, Bool.false_eq_true, if_false]
   apply foldl_congr_mem
   intro kv hkv acc
   simp only [h kv hkv, Bool.false_eq_true, if_false]
@@ -204,9 +210,15 @@ theorem lookup_foldl_set (k : Bytes) : ∀ (l : List (Bytes × Bytes)) (env : En
 /-- Read as a map, the environment after plain user entries is independent of their order. -/
 theorem withUserEnv_perm_lookup {l l' : List (Bytes × Bytes)} (p : l'.Perm l) (hn : KeysNodup l)
     (hd : ∀ kv ∈ l, kv.2.contains 36 = false) (env : Env) (k : Bytes) :
-    lookup k (withUserEnv l' env) = lookup k (withUserEnv l env) := by
+    lookup k (withUserEnv false l' env) = lookup k (withUserEnv false l env) := by
   have hd' : ∀ kv ∈ l', kv.2.contains 36 = false := fun kv hkv => hd kv (p.subset hkv)
   rw [withUserEnv_plain l env hd, withUserEnv_plain l' env hd', lookup_foldl_set k l env hn,
     lookup_foldl_set k l' env (hn.perm p.symm), lookup_perm k hn p.symm]
+
+/-- With the key sort, the whole function is independent of the map's iteration order. -/
+theorem withUserEnv_sorted_perm {l l' : List (Bytes × Bytes)} (p : l'.Perm l) (hn : KeysNodup l) (env : Env) :
+    withUserEnv true l' env = withUserEnv true l env := by
+  simp only [withUserEnv]
+  rw [keysOrder_perm (hn.perm p.symm) p]
 
 end PlzVerif.Env
